@@ -271,32 +271,61 @@ def make_preempt(shape, nthreads, fa=None, fb=None, klo=1, khi=1500, only=None):
     return h
 
 
+_LEN = {}
+
+
+def trigger_length(shape, trig, only):
+    """number of instrumented statements (of the modules in `only`, or all) the triggering access executes on the
+    current tree, measured after a warm-up: the preemption index must range over ALL of them (bound derived from the code)"""
+    key = (shape, trig, tuple(sorted(only)) if only else None)
+    if key not in _LEN:
+        C, Sub = make_class(shape, False)
+        first_use(C, Sub, trig)  # warm-up: lazily generated library state
+        C, Sub = make_class(shape, False)
+        instrument.reset_locks()
+        instrument.arm(10**9, "preempt", callback=lambda: None, only_modules=only)
+        try:
+            first_use(C, Sub, trig, instrument.disarm)
+        finally:
+            _LEN[key] = instrument.STATE["count"]
+            instrument.disarm()
+    return _LEN[key]
+
+
 def obligations(tier):
     obs = []
     T = 600 if tier == "quick" else 3000
     obs.append(Ob("C19.seq", make_seq(), [(s, t, t2) for s in range(len(SHAPES)) for t in range(4) for t2 in (0, 1)], f"sequential: class shapes {SHAPES} (Attr / dataclasses.field declarations, not-yet-bootstrapped parent, __new__ defined or inherited, keyed) built inside the path; first trigger and a second access from {TRIGGERS} by symbolic selectors (selector-only part)", expect={"ok"}, timeout=T))
     core = {"spec_classes.spec_class", "spec_classes.methods.base"}
-    width = 60
-    plan = []  # (shape, trigger of A, trigger of B, statement filter, kmax)
+    width = 75
+    plan = []  # (shape, trigger of A, trigger of B, statement filter)
+    four = (("instantiate", "instantiate"), ("instantiate", "metadata"), ("metadata", "instantiate"), ("metadata", "metadata"))
     if tier == "quick":
-        for fa, fb in (("instantiate", "instantiate"), ("instantiate", "metadata"), ("metadata", "instantiate"), ("metadata", "metadata")):
-            plan.append(("lazy-parent", fa, fb, core, 660))
+        for fa, fb in four:
+            plan.append(("lazy-parent", fa, fb, core))
         for fa, fb in (("instantiate", "instantiate"), ("metadata", "instantiate")):
-            plan.append(("attrs", fa, fb, core, 600))
+            plan.append(("attrs", fa, fb, core))
+        plan.append(("base-new", "instantiate", "instantiate", core))
     else:
         for shape in SHAPES:
-            for fa in TRIGGERS:
-                for fb in TRIGGERS:
-                    plan.append((shape, fa, fb, core, 660))
+            for fa, fb in four:
+                plan.append((shape, fa, fb, core))
+        for fa in TRIGGERS:
+            for fb in TRIGGERS:
+                if (fa, fb) not in four:
+                    plan.append(("lazy-parent", fa, fb, core))
         for shape in ("attrs", "lazy-parent"):
             for fa, fb in (("instantiate", "instantiate"), ("instantiate", "metadata"), ("metadata", "instantiate")):
-                plan.append((shape, fa, fb, None, 1500))
+                plan.append((shape, fa, fb, None))
         width = 110
-    for shape, fa, fb, only, kmax in plan:
+    for shape, fa, fb, only in plan:
+        # the preemption index ranges over every statement the triggering access executes (measured on the current
+        # tree) plus a margin; the last shard therefore also contains indices at which A completes unpreempted
+        kmax = trigger_length(shape, fa, only) + 15
         for klo in range(1, kmax, width):
             warm = [(0, 0, 0, k, 1) for k in (klo, klo + 7, klo + width - 1)]
             tagm = "core" if only else "all"
-            obs.append(Ob(f"C19.preempt2.{shape}.A-{fa}.B-{fb}.{tagm}.k{klo}-{klo + width - 1}", make_preempt(shape, 2, fa, fb, klo, klo + width - 1, only), warm, f"E2-preempt, 2 threads, class shape {shape}: A's triggering access ({fa}) preempted at its k-th executed statement of {'spec_class.py / methods/base.py' if only else 'library code'}, k symbolic in [{klo},{klo + width - 1}] (the whole trigger executes ~{'600' if only else '1400'} such statements); B performs a complete first use ({fb}); LIFO-nested schedules only; a B that needs a lock held by A = infeasible schedule (skipped)", expect=set(), timeout=T, per_path=120, group=f"C19.preempt2.{shape}"))
+            obs.append(Ob(f"C19.preempt2.{shape}.A-{fa}.B-{fb}.{tagm}.k{klo}-{klo + width - 1}", make_preempt(shape, 2, fa, fb, klo, klo + width - 1, only), warm, f"E2-preempt, 2 threads, class shape {shape}: A's triggering access ({fa}) preempted at its k-th executed statement of {'spec_class.py / methods/base.py' if only else 'library code'}, k symbolic in [{klo},{klo + width - 1}] (the triggering access executes {kmax - 15} such statements on this tree: measured at listing time); B performs a complete first use ({fb}); LIFO-nested schedules only; a B that needs a lock held by A = infeasible schedule (skipped)", expect=set(), timeout=T, per_path=120, group=f"C19.preempt2.{shape}"))
     if tier == "thorough":
         for shape in ("attrs", "lazy-parent"):
             warm = [(ta, tb, tc, k, j) for ta in (0, 1) for tb in (0, 1) for tc in (0, 2) for k in (11, 400) for j in (5, 300)]
